@@ -7,7 +7,7 @@
    assignment is accepted, written as assigned (until a read decodes it: C10) and validates at every level; over any sequence of operations the
    stored value stays valid at level 3 and only valid texts are written at level >= 2. *)
 From Coq Require Import List String Ascii ZArith Bool.
-From GfaV Require Import Base.Py Base.Regex Base.RegexIncl Gen.Regexes Model.Codec Model.Line Model.Levels Proofs.LevelsP Proofs.HardOkP.
+From GfaV Require Import Base.Py Base.Regex Base.RegexIncl Gen.Regexes Gen.K_clone Model.Codec Model.Line Model.Levels Proofs.LevelsP Proofs.HardOkP.
 Import ListNotations.
 Open Scope string_scope.
 
@@ -35,6 +35,13 @@ Print Assumptions C18_safe_decoders_accept_less.
 Theorem C18_thresholds_in_the_source : set_level = 3%nat /\ write_level = 2%nat /\ init_level = 1%nat.
 Proof. repeat split; reflexivity. Qed.
 Print Assumptions C18_thresholds_in_the_source.
+
+(* a copy made by clone() is constructed with the validation level of the line it copies (read from the constructor call
+   in the source), so the copies made by multiplication, merging and complement report invalid values when the original
+   would *)
+Theorem C18_a_copy_keeps_the_level : Gen.K_clone.k_clone_keeps_vlevel = true.
+Proof. reflexivity. Qed.
+Print Assumptions C18_a_copy_keeps_the_level.
 
 Theorem C18_invalid_assignment_level3 : forall O c v, valid O (mkF (f_dt c) v) = false ->
   lstep O 3 c (LSet v) = (c, Err (G EFormat)).
